@@ -200,4 +200,85 @@ theorem positionsss_ptsss (psss : List (List (List (Pt F)))) :
   have := allSome_map (positionss (F := F)) (t3 ∘ pointssCoordinates) psss (fun x _ => positionss_ptss x)
   simpa using this
 
+/-! ### inversion of the RFC reader: what it accepts is exactly the encoder's document (either member order) -/
+
+theorem allSome_inv {α β : Type} (f : β → Option α) (g : α → β)
+    (h : ∀ x y, f x = some y → x = g y) (xs : List β) (ys : List α)
+    (hs : allSome (xs.map f) = some ys) : xs = ys.map g := by
+  induction xs generalizing ys with
+  | nil => simp [allSome] at hs; subst hs; rfl
+  | cons x xs ih =>
+    simp only [List.map_cons] at hs
+    cases hx : f x with
+    | none => simp [hx, allSome] at hs
+    | some y =>
+      simp only [hx, allSome] at hs
+      cases hr : allSome (xs.map f) with
+      | none => simp [hr] at hs
+      | some zs =>
+        simp [hr] at hs; subst hs
+        simp [h x y hx, ih zs hr]
+
+theorem position_inv (c : Tree F) (p : Pt F) (h : position c = some p) : c = t1 (pointCoordinates p) := by
+  unfold position at h
+  split at h
+  · simp at h; subst h; simp [t1, pointCoordinates]
+  · simp at h
+
+theorem positions_inv (c : Tree F) (ps : List (Pt F)) (h : positions c = some ps) :
+    c = t2 (pointsCoordinates ps) := by
+  unfold positions arrayOf at h
+  split at h
+  · rename_i xs
+    have := allSome_inv position (t1 ∘ pointCoordinates) (fun x y hxy => position_inv x y hxy) xs ps h
+    simp [t2, pointsCoordinates, this]
+  · simp at h
+
+theorem positionss_inv (c : Tree F) (pss : List (List (Pt F))) (h : positionss c = some pss) :
+    c = t3 (pointssCoordinates pss) := by
+  unfold positionss arrayOf at h
+  split at h
+  · rename_i xs
+    have := allSome_inv positions (t2 ∘ pointsCoordinates) (fun x y hxy => positions_inv x y hxy) xs pss h
+    simp [t3, pointssCoordinates, this]
+  · simp at h
+
+theorem positionsss_inv (c : Tree F) (psss : List (List (List (Pt F)))) (h : positionsss c = some psss) :
+    c = t4 (pointsssCoordinates psss) := by
+  unfold positionsss arrayOf at h
+  split at h
+  · rename_i xs
+    have := allSome_inv positionss (t3 ∘ pointssCoordinates) (fun x y hxy => positionss_inv x y hxy) xs psss h
+    simp [t4, pointsssCoordinates, this]
+  · simp at h
+
+/-- `json.Unmarshal` of the two members in the other order -/
+theorem unmarshal_doc_swapped (ty : String) (c : Tree F) :
+    unmarshal (.obj [("coordinates", c), ("type", .str ty)]) = .ok (ty, c) := by
+  have h1 : foldKey "type" = "type".toList := by decide
+  have h2 : foldKey "coordinates" = "coordinates".toList := by decide
+  have h3 : "coordinates".toList ≠ "type".toList := by decide
+  simp [unmarshal, unmarshalStep, h1, h2, h3]
+
+/-- exactly one `type` and one `coordinates` among two members: the object is the pair in one of the
+two orders -/
+theorem members_inv (kvs : List (String × Tree F)) (tv c : Tree F) (hl : kvs.length = 2)
+    (ht : member "type" kvs = some tv) (hc : member "coordinates" kvs = some c) :
+    kvs = [("type", tv), ("coordinates", c)] ∨ kvs = [("coordinates", c), ("type", tv)] := by
+  match kvs, hl with
+  | [(k1, v1), (k2, v2)], _ =>
+    have key : ∀ k : String, (k == "type") = true → (k == "coordinates") = true → False := by
+      intro k h1 h2
+      have := eq_of_beq h1
+      subst this
+      exact absurd h2 (by decide)
+    cases a1 : (k1 == "type") <;> cases a2 : (k2 == "type") <;>
+      cases b1 : (k1 == "coordinates") <;> cases b2 : (k2 == "coordinates") <;>
+      simp [member, List.filter, a1, a2, b1, b2] at ht hc
+    all_goals first
+      | exact (key k1 a1 b1).elim
+      | exact (key k2 a2 b2).elim
+      | (have e1 := eq_of_beq a1; have e2 := eq_of_beq b2; subst e1 e2 ht hc; exact Or.inl rfl)
+      | (have e1 := eq_of_beq b1; have e2 := eq_of_beq a2; subst e1 e2 ht hc; exact Or.inr rfl)
+
 end GeomV.C06
